@@ -56,7 +56,11 @@ func entryAddrs(es wallet.Entries) []string {
 
 func checkEntryConsistency(es wallet.Entries, wantSecrets bool) error {
 	for _, e := range es {
-		if e.Address.String() != cipher.AddressFromPubKey(e.Public).String() {
+		want := cipher.AddressFromPubKey(e.Public).String()
+		if bipBitcoin {
+			want = cipher.BitcoinAddressFromPubKey(e.Public).String() // the address encoding of the wallet's coin type
+		}
+		if e.Address.String() != want {
 			return fmt.Errorf("entry %s: address is not the address of its public key %s", e.Address, e.Public.Hex())
 		}
 		if !e.Secret.Null() {
@@ -78,6 +82,13 @@ func TestC17_Derivation(t *testing.T) {
 	hx.Check(t, "C17", 120, 8000, func(t *rapid.T) {
 		kind := rapid.SampledFrom([]wkind{kDet, kBip, kBip, kXpub, kColl}).Draw(t, "kind")
 		seedIdx := rapid.IntRange(0, 200).Draw(t, "seed")
+		// bip44 wallets of the other supported coin type (its addresses are encoded differently, and the type must
+		// survive the wallet file)
+		bipBitcoin = kind == kBip && rapid.IntRange(0, 2).Draw(t, "coin_type") == 1
+		defer func() { bipBitcoin = false }()
+		if bipBitcoin {
+			r.Count("bip44_bitcoin_coin_type")
+		}
 		dir := hx.TempDir("c17")
 		defer os.RemoveAll(dir)
 		// reference lists from a fresh wallet generating everything in one call
@@ -343,12 +354,20 @@ func TestC17_Derivation(t *testing.T) {
 					n = c
 				}
 				for i := 0; i < n && i < 3 && i < len(ref); i++ {
-					k, err := m.Derive([]uint32{bip.Hardened + 44, bip.Hardened + 8000, bip.Hardened, uint32(chain), uint32(i)})
+					coinIdx := uint32(8000)
+					if bipBitcoin {
+						coinIdx = 0
+					}
+					k, err := m.Derive([]uint32{bip.Hardened + 44, bip.Hardened + coinIdx, bip.Hardened, uint32(chain), uint32(i)})
 					if err != nil {
 						t.Fatal(err)
 					}
-					if a := rules.AddrOfPub(curve.Compress(k.Pub)).String(); a != ref[i] {
-						t.Fatalf("%s address m/44'/8000'/0'/%d/%d is %s, the reference derivation gives %s", kind, chain, i, ref[i], a)
+					a := rules.AddrOfPub(curve.Compress(k.Pub)).String()
+					if bipBitcoin {
+						a = cipher.BitcoinAddressFromPubKey(cipher.MustNewPubKey(curve.Compress(k.Pub))).String()
+					}
+					if a != ref[i] {
+						t.Fatalf("%s address m/44'/%d'/0'/%d/%d is %s, the reference derivation gives %s", kind, coinIdx, chain, i, ref[i], a)
 					}
 				}
 			}
